@@ -4,6 +4,9 @@
 package wasp
 
 import (
+	"fmt"
+	"reflect"
+
 	"github.com/vx-labs/wasp/v4/wasp/ack"
 	"github.com/vx-labs/wasp/v4/wasp/distributed"
 )
@@ -17,6 +20,8 @@ type VerifMIDPool interface {
 	Put(int32)
 	// Intervals returns a copy of the allocator's internal free list.
 	Intervals() [][2]int32
+	// Fingerprint renders every field of the allocator except its mutex.
+	Fingerprint() string
 }
 
 type verifPool struct{ p *simpleMidPool }
@@ -29,6 +34,20 @@ func (v verifPool) Intervals() [][2]int32 {
 	out := make([][2]int32, len(v.p.intervals))
 	for i, iv := range v.p.intervals {
 		out[i] = [2]int32{iv.from, iv.to}
+	}
+	return out
+}
+
+func (v verifPool) Fingerprint() string {
+	v.p.mtx.Lock()
+	defer v.p.mtx.Unlock()
+	rv := reflect.ValueOf(v.p).Elem()
+	out := ""
+	for i := 0; i < rv.NumField(); i++ {
+		if rv.Type().Field(i).Name == "mtx" {
+			continue
+		}
+		out += fmt.Sprintf("%s=%v;", rv.Type().Field(i).Name, rv.Field(i))
 	}
 	return out
 }
